@@ -3,6 +3,7 @@ recount; sos/eos are put around every transcript on reading and stripped on writ
 from __future__ import annotations
 
 import copy
+import itertools
 import os
 
 from hypothesis import strategies as st
@@ -143,6 +144,8 @@ def dir_case(draw, tier, plans=("valid", "valid", "repairable", "repairable", "r
                 ref["dim"] = 3 - ref_dim
                 if ref["dim"] == 2:
                     ref["rows"] = [_clean_row(draw, T, 2) for _ in ref["rows"]]
+                if draw(st.integers(0, 2)) == 0:
+                    ref["rows"] = []  # an *empty* transcript of the other dimensionality: shape (0,) among 2-D ones, (0, 3) among 1-D ones
             elif what == "ref_rank":
                 ref["dim"] = draw(st.sampled_from([0, 3]))
             elif what == "ref_width":
@@ -382,6 +385,50 @@ def _strict_check(case):
     if case["distract"]:
         cl.append("distractor_files")
     return Info(nontrivial=_nontrivial(ds_defects, None), classes=cl)
+
+
+def _ref_dims_enum(tier):
+    """Every assignment of {1-D, empty 1-D (0,), 2-D, empty 2-D (0, 3)} to the references of 2 or 3 utterances."""
+    kinds = ["1d", "1d_empty", "2d", "2d_empty"]
+    out = []
+    for n in (2, 3):
+        for combo in itertools.product(kinds, repeat=n):
+            for fix in (None, 1):
+                utts = []
+                for i, kd in enumerate(combo):
+                    T = 3 + i
+                    rows = [] if kd.endswith("empty") else ([[i, 0, 2], [i + 1, -1, -1]] if kd.startswith("2d") else [[i, -1, -1], [i + 1, -1, -1]])
+                    utts.append({"feat": {"T": T, "F": 2, "dtype": "float32", "rank": 2, "layout": "own"}, "ali": None,
+                                 "ref": {"dtype": "int64", "dim": 2 if kd.startswith("2d") else 1, "width": 3, "layout": "own", "rows": rows}})
+                out.append({"prefix": "", "suffix": ".pt", "distract": False, "ali_dir": False, "ref_dir": True, "fix": fix,
+                            "utts": utts, "pattern": list(combo)})
+    return out
+
+
+@subcheck("C12", "ref_dims_enum", _ref_dims_enum, 0, 0, exhaustive=True,
+          doc="every assignment of {1-D, empty 1-D of shape (0,), 2-D, empty 2-D of shape (0, 3)} references to 2 or 3 otherwise "
+              "well-formed utterances, strict and fix=1: accepted iff all references have one dimensionality (an empty "
+              "reference has a dimensionality too); nothing written",
+          required_classes=["mixed_dims_with_empty_reference", "one_dimensionality"])
+def _ref_dims_check(case):
+    with dirs.scratch_root() as root:
+        data_dir = os.path.join(root, "data")
+        dirs.write_dir(data_dir, case)
+        disk = dirs.read_dir(data_dir, case)
+        model = dirs.model_of(disk, case)
+        ds = _dataset(data_dir, case)
+        _expect_members(ds, model)
+        if case["fix"] is None:
+            ds_defects = _strict_step(ds, data_dir, case, model, disk)
+        else:
+            ds_defects = O.defects(model)
+            _fix_step(ds, data_dir, case, model, disk, case["fix"])
+    dims = {k[:2] for k in case["pattern"]}
+    require(bool(ds_defects) == (len(dims) > 1), "oracle: mixed reference dimensionality must be the only defect here", ds_defects, sorted(dims))
+    cl = ["one_dimensionality" if len(dims) == 1 else "mixed_dims"]
+    if len(dims) > 1 and any(k.endswith("empty") for k in case["pattern"]):
+        cl.append("mixed_dims_with_empty_reference")
+    return Info(nontrivial=len(dims) > 1, classes=cl)
 
 
 # ---------------------------------------------------------------- 2. fix
